@@ -1,5 +1,6 @@
 import Driver.Pure
 import Driver.TableSuite
+import Driver.B62Suite
 /-
   vpmodel: reads lines `op<TAB>implementation observation`, prints `model observation<TAB>spec verdict`.
 -/
@@ -15,6 +16,9 @@ def stepLine (st : DState) (line : String) : DState × String :=
   let toks := (op.splitOn " ").filter (· ≠ "")
   if toks = ["reset"] then (({} : DState), "ok\t-") else
   match pureStep toks implObs with
+  | some (m, s) => (st, m ++ "\t" ++ s)
+  | none =>
+  match b62Step toks implObs with
   | some (m, s) => (st, m ++ "\t" ++ s)
   | none =>
   match tableStep st.table toks implObs with
